@@ -68,7 +68,7 @@ def macro_hook(ex, path, node, env):
 
 
 def common_call_hook(ex, path, args, node):
-    np = norm_path(path)
+    np = "::".join(path.split("::")[-2:])
     name = path.split("::")[-1]
     if np in ("S3Error::with_message",):
         return s3_error_value(args[0], message=args[1])
@@ -87,8 +87,158 @@ def common_call_hook(ex, path, args, node):
             a.place.set(Const("Default::default"))
             return old
         return a
+    if np == "S3ErrorCode::Custom":
+        return Variant("S3ErrorCode::Custom", [args[0]])
     if np in ("mem::drop", "drop"):
         return UNIT
+    if np in ("AsRef::as_ref", "Clone::clone", "ToOwned::to_owned", "ToString::to_string", "Deref::deref"):
+        return args[0]
     if np in ("From::from", "Into::into", "String::from", "ByteString::from_static", "ByteString::from"):
         return args[0]
     return NotImplemented
+
+
+# --------------------------------------------------------------------------------------------------
+# Orchestration profile: ops::call / ops::prepare / SignatureContext::* (C07, C04 funnel, C05-C11 logic)
+# --------------------------------------------------------------------------------------------------
+
+PURE_METHODS = {
+    # http / hyper accessors
+    "path", "query", "authority", "get", "to_str", "parse", "bucket", "domain", "has", "get_unique", "get_all",
+    "contains_key", "type_", "subtype", "get_param", "len", "is_empty", "name", "is_negative", "abs", "to_time",
+    "exact_remaining_length", "into_byte_stream", "bytes", "starts_with", "find_multiple_with_on_missing",
+    "credentials", "find_field_value", "fields", "take_bytes", "as_u16", "status_code", "message", "code",
+}
+PURE_FUNCS = {
+    # (normalised path) -> doc
+    "urlencoding::decode": "percent-decoding (third party), fallible, uninterpreted",
+    "parse_virtual_hosted_style": "path parser (decided separately under C12), fallible, uninterpreted here",
+    "parse_path_style": "path parser (C12), fallible, uninterpreted here",
+    "OrderedQs::parse": "query-string parser, fallible, uninterpreted",
+    "OrderedHeaders::from_headers": "header table, fallible, uninterpreted",
+    "atoi::atoi": "decimal parser (third party), Option, uninterpreted",
+    "atoi": "decimal parser (third party), Option, uninterpreted",
+    "AuthorizationV2::parse": "uninterpreted parser", "AuthorizationV4::parse": "uninterpreted parser",
+    "AmzDate::parse": "uninterpreted parser", "AmzContentSha256::parse": "uninterpreted parser",
+    "PresignedUrlV2::parse": "uninterpreted parser", "PresignedUrlV4::parse": "uninterpreted parser",
+    "CredentialV4::parse": "uninterpreted parser", "PostSignatureInfo::extract": "uninterpreted extractor (Option)",
+    "is_base64_encoded": "uninterpreted predicate",
+    "create_string_to_sign": "uninterpreted (decided under C05/C11)", "calculate_signature": "uninterpreted (HMAC chain)",
+    "create_canonical_request": "uninterpreted (C05)", "create_presigned_canonical_request": "uninterpreted (C06)",
+    "OffsetDateTime::now_utc": "the clock: arbitrary value", "Duration::seconds": "uninterpreted",
+    "AwsChunkedStream::new": "constructor (C08)", "Body::from": "conversion", "VecByteStream::new": "constructor",
+    "HeaderValue::try_from": "uninterpreted", "fmt_usize": "uninterpreted", "HeaderValue::from_static": "constant",
+    "fmt_content_length": "formats a length", "Response::with_status": "constructor",
+    "StatusCode::from_u16": "uninterpreted",
+}
+
+
+SUMMARIES = {"extract_content_length", "extract_mime", "extract_decoded_content_length", "extract_host", "extract_qs",
+             "extract_headers", "is_socket_addr_or_ip_addr", "fmt_content_length", "extract_amz_content_sha256",
+             "extract_authorization_v4", "extract_amz_date", "convert_parse_s3_path_error", "unknown_operation"}
+
+
+def orchestration_hooks(trace_calls=True):
+    def method_hook(ex, recv, name, args, node):
+        r0 = deref(recv)
+        key = vkey(r0) if isinstance(r0, Term) else ""
+        # --- environment objects: every call is an observable event with a fresh (arbitrary) result
+        if isinstance(r0, Term):
+            if key == "ccx.s3":
+                ex.event("s3." + name, *args)
+                return ex.fresh("s3_result")
+            if key == 'payload(ccx.auth,"Some")' or key.startswith("payload(ccx.auth"):
+                if name == "get_secret_key":
+                    r = Term("get_secret_key", args[0], ex.fresh("auth_call"))
+                    ex.event("auth.get_secret_key", args[0], result=r)
+                    return r
+            if key.startswith("payload(ccx.access"):
+                r = ex.fresh("access_" + name)
+                ex.event("access." + name, *args, result=r)
+                return r
+            if key.startswith("payload(ccx.route"):
+                r = ex.fresh("route_" + name)
+                ex.event("route." + name, *args, result=r)
+                return r
+            if key.startswith("payload(ccx.host"):
+                return Term("host." + name, r0, *args)
+            if name == "call" and len(args) == 2:
+                r = ex.fresh("op_call")
+                ex.event("op.call", r0, *args, result=r)
+                return r
+            if name in ("store_all_unlimited", "store_all_limited"):
+                r = ex.fresh("store_all")
+                ex.event("body." + name, result=r)
+                return r
+            if name in ("sort_unstable", "sort", "insert", "remove", "extend", "push"):
+                return UNIT
+            if name == "get_mut":
+                return Term("get_mut", r0, *args)
+            if name in PURE_METHODS:
+                return Term(name, r0, *args)
+        if isinstance(r0, Struct) and r0.name == "SignatureContext" and name == "check" and "SignatureContext::check" in ex.no_inline:
+            r = Term("sig_check", ex.fresh("chk"))
+            ex.event("sig.check", auth=r0.fields.get("auth"), result=r)
+            # check() may install a transformed body / multipart form: arbitrary afterwards
+            r0.fields["transformed_body"] = Term("scx.transformed_body")
+            r0.fields["multipart"] = Term("scx.multipart")
+            return r
+        if name in ("set_message", "set_source", "set_request_id", "set_status_code", "set_headers") and \
+                isinstance(r0, (Variant, Const)) and isinstance(recv, RefV):
+            # `let mut err: S3Error = code.into(); err.set_x(..)`: the conversion S3ErrorCode -> S3Error
+            r0 = s3_error_value(r0)
+            recv.place.set(r0)
+        if name == "take_file_stream":
+            doc("Multipart::take_file_stream: a Multipart produced by transform_multipart holds its file stream (Some) until taken once")
+            return some(Term("file_stream", r0))
+        if isinstance(r0, Struct) and r0.name == "S3Error":
+            if name in ("set_message", "set_source", "set_request_id", "set_status_code", "set_headers"):
+                r0.fields[name[4:]] = args[0]
+                return UNIT
+            if name == "status_code":
+                return Term("status_code", r0.fields["code"])
+            if name == "take_headers":
+                h = r0.fields.get("headers")
+                return some(h) if h is not None else Term("take_headers", Term("err"))
+        if isinstance(r0, (str, Const)) and name in ("as_str", "as_bytes"):
+            return r0
+        if isinstance(r0, Const) and name == "name" and not args:
+            return r0.name
+        if isinstance(r0, Const) and name == "call" and len(args) == 2:
+            r = ex.fresh("op_call")
+            ex.event("op.call", r0, *args, result=r)
+            return r
+        if name in ("is_some", "is_none", "is_ok", "is_err"):
+            return NotImplemented
+        return NotImplemented
+
+    def call_hook(ex, path, args, node):
+        np = norm_path(path)
+        name = path.split("::")[-1]
+        for cand in (np, name, "::".join(path.split("::")[-2:])):
+            if cand in PURE_FUNCS:
+                doc("%s: %s" % (cand, PURE_FUNCS[cand]))
+                if cand == "OffsetDateTime::now_utc":
+                    return Term("now_utc")
+                return Term(cand.split("::")[-1] if cand in ("atoi::atoi",) else cand, *args)
+        if name in ex.no_inline and name in SUMMARIES:
+            doc("summary: %s is an uninterpreted (possibly fallible) function of its arguments here: it contains no event" % name)
+            return Term(name, *[a if not isinstance(deref(a), Struct) else Term("&" + deref(a).name) for a in args])
+        if name == "resolve_route":
+            r = Term("resolve_route", ex.fresh("rr"))
+            ex.event("resolve_route", result=r)
+            return r
+        if name in ("transform_multipart", "aggregate_unlimited"):
+            r = ex.fresh(name)
+            ex.event(name, result=r)
+            return r
+        if name == "serialize_error" and "serialize_error" in ex.no_inline:
+            r = Term("serialize_error", args[0] if not isinstance(deref(args[0]), Struct) else Term("S3Error", deref(args[0]).fields["code"]))
+            ex.event("serialize_error", args[0], result=r)
+            return r
+        if name in ("set_xml_body", "set_xml_body_no_decl"):
+            ex.event(name, *args[1:])
+            return ex.fresh(name)
+        return common_call_hook(ex, path, args, node)
+
+    return method_hook, call_hook
